@@ -4,7 +4,7 @@ import random
 
 LEVEL = 'exploration'
 RULE = ('explicitly built documents: table U (K, V) and table T with data columns A (Int), B (Text), C (Numeric), X (Int, no '
-        'dependant), R (Ref:U), formula columns F1 (of $A), F2 ($R.V, another table), F3 (len(T.all)) and 9-12 seeded '
+        'dependant), R (Ref:U), formula columns F1 (of $A), F2 ($R.V, another table), F3 (len(T.all)) and 10-13 seeded '
         'trigger-formula columns (data column + formula; recalcWhen DEFAULT / NEVER / MANUAL_UPDATES; recalcDeps on data '
         'columns, on formula columns, on another trigger column, on itself, empty; counting, copying, stamping and '
         'self-cleaning formulas, all total). A seeded random edit history (adds with/without explicit values for the trigger '
@@ -27,14 +27,18 @@ ASSUMPTIONS = ['all generated formulas are total, so no dependency column holds 
                'NEVER columns are judged on new records only (the statement says nothing else about them)',
                'a column that lists itself in recalcDeps is exempt from the "explicit value is kept" demand',
                'when a trigger column is written explicitly in one user action of a bundle and one of its dependencies '
-               'changes in another user action of the same bundle, nothing is demanded for that cell']
+               'changes in another user action of the same bundle (or, in a multi-action bundle, a formula dependency is '
+               'recomputed, which cannot be attributed to one action), nothing is demanded for that cell',
+               'a schema edit and a record action never share a bundle in the random stream (open findings '
+               'trigger_edges_suspended_until_end_of_bundle / pending_trigger_recalc_dropped_by_column_replacement are '
+               'about such bundles and have a deterministic witness)']
 REQUIRED = {'bundles_judged': {'quick': 1200, 'thorough': 12000},
             'must_eval_checked': {'quick': 1500, 'thorough': 15000},
             'must_not_checked': {'quick': 20000, 'thorough': 200000},
             'kept_checked': {'quick': 250, 'thorough': 2500},
             'new_row_checked': {'quick': 1200, 'thorough': 12000},
             'schema_bundles_judged': {'quick': 80, 'thorough': 800},
-            'witness_runs': {'quick': 2, 'thorough': 2}}
+            'witness_runs': {'quick': 3, 'thorough': 3}}
 SHARD_TIMEOUT = {'quick': 200, 'thorough': 1500}
 
 DEFAULT, NEVER, MANUAL = 0, 1, 2
@@ -61,7 +65,8 @@ DEP_TYPES = {'A': ['Int', 'Numeric', 'Text', 'Any'], 'B': ['Text', 'Any', 'Choic
 
 
 def plan(tier, seed):
-  w = [{'witness': 'explicit_value_lost_before_later_action'}, {'witness': 'explicit_unchanged_value_not_protected'}]
+  w = [{'witness': 'explicit_value_lost_before_later_action'}, {'witness': 'explicit_unchanged_value_not_protected'},
+       {'witness': 'schema_change_in_bundle'}]
   if tier == 'quick':
     return w + [{'hseed': seed * 100003 + i, 'steps': 130} for i in range(15)]
   return w + [{'hseed': seed * 100003 + 7000 + i, 'steps': 420} for i in range(60)]
@@ -131,6 +136,7 @@ def build_doc(p, rnd, acc):
     ('count', 'Int', DEFAULT, ['A']), ('count', 'Int', DEFAULT, ['F1']), ('count', 'Numeric', DEFAULT, ['F2']),
     ('count', 'Int', DEFAULT, ['F3']), ('count', 'Int', DEFAULT, []), ('count', 'Int', NEVER, ['A']),
     ('count', 'Int', MANUAL, []), ('clean', 'Text', DEFAULT, ['self', 'B']), ('count', 'Int', DEFAULT, ['T0']),
+    ('count', 'Int', MANUAL, ['F2', 'F3', 'A']),      # recalcDeps of a MANUAL_UPDATES column mean nothing
   ]
   extras = []
   for _ in range(rnd.randint(0, 3)):
@@ -699,6 +705,39 @@ def witness_explicit_unchanged_value_not_protected(acc):
     if two != 50.0:
       acc.violation('explicit_unchanged_value_not_protected', 'witness: with D[1] = 50, [UpdateRecord T 1 {A: 6, D: 50}] left '
                     'D[1] = %r instead of 50' % (two,), {'D': two})
+
+
+def witness_schema_change_in_bundle(acc):
+  """Two open findings about a bundle that holds a record update AND a schema change that replaces the column object
+  of a trigger column (here: renaming the dependency A rewrites the formulas of D and M, which re-creates both columns).
+  (a) schema change first: the dependency edges of D are only rebuilt at the end of the bundle, so the update of A does not
+      recalculate D;
+  (b) update first: the recalculations it scheduled for D and M are forgotten when their column objects are replaced.
+  The random stream never puts a schema edit and a record action into one bundle."""
+  from vlib.client import EngineProc
+  from vlib import snapshot
+
+  def run(bundle):
+    with EngineProc() as p:
+      p.init_doc()
+      p.apply([['AddTable', 'T', [{'id': 'A', 'type': 'Int', 'isFormula': False}]]])
+      p.apply([['AddColumn', 'T', 'D', {'type': 'Int', 'isFormula': False, 'formula': '$A * 100', 'recalcWhen': 0, 'recalcDeps': [2]}]])
+      p.apply([['AddColumn', 'T', 'M', {'type': 'Int', 'isFormula': False, 'formula': '$A * 1000', 'recalcWhen': 2}]])
+      p.apply([['BulkAddRecord', 'T', [None, None], {'A': [1, 2]}]])
+      p.apply(bundle)
+      return snapshot.rows_of(snapshot.take(p), 'T')[1]
+  acc.count('witness_runs')
+  sep = run([['UpdateRecord', 'T', 1, {'A': 5}]])
+  if (sep['D'], sep['M']) != (500.0, 5000.0):
+    acc.violation('not_recalculated', 'witness: [UpdateRecord T 1 {A: 5}] alone left D, M = %r, %r' % (sep['D'], sep['M']), {})
+  a = run([['RenameColumn', 'T', 'A', 'A2'], ['UpdateRecord', 'T', 1, {'A2': 5}]])
+  if a['D'] != 500.0:
+    acc.violation('trigger_edges_suspended_until_end_of_bundle', 'witness: [RenameColumn T A A2, UpdateRecord T 1 {A2: 5}] left D[1] = %r '
+                  '(not recalculated) and M[1] = %r' % (a['D'], a['M']), {'row': a})
+  b = run([['UpdateRecord', 'T', 1, {'A': 5}], ['RenameColumn', 'T', 'A', 'A2']])
+  if b['D'] != 500.0 or b['M'] != 5000.0:
+    acc.violation('pending_trigger_recalc_dropped_by_column_replacement', 'witness: [UpdateRecord T 1 {A: 5}, RenameColumn T A A2] left '
+                  'D[1] = %r, M[1] = %r (neither recalculated)' % (b['D'], b['M']), {'row': b})
 
 
 def run_shard(spec, acc):
